@@ -14,7 +14,7 @@ mod verif_native_display {
                     .map(|k| FoldSubTraceLore { value_pos: TracePos::from(k as u32), subtraces_desc: descs.clone() })
                     .collect();
                 let state = ExecutedState::Fold(FoldResult { lore });
-                let shown = std::panic::catch_unwind(|| format!("{state}"));
+                let shown = std::panic::catch_unwind(std::panic::AssertUnwindSafe(|| format!("{state}")));
                 if shown.is_err() {
                     println!("VERIF-JOB C01.display FAIL fold with {n_lores} sublore(s) of {n_desc} descriptor(s)");
                     panic!("Display panicked");
